@@ -460,7 +460,13 @@ def parseLine(raw, eols=(CRLF, LF, CR ), kind="event line"):
 
     Raise error if eol not found before MAX_LINE_SIZE
     """
+    skiplf = False  # True when line ended with CR that may be first half of CRLF
     while True:
+        if skiplf and raw:  # LF right after line ending CR is rest of split CRLF
+            if raw[0:1] == LF:
+                del raw[0]
+            skiplf = False
+
         index, eol = findEol(raw, eols)  # earliest eol, index == -1 if not found
 
         if index < 0:  # not found
@@ -475,6 +481,8 @@ def parseLine(raw, eols=(CRLF, LF, CR ), kind="event line"):
 
         line = raw[:index]
         index += len(eol)  # strip eol
+        if eol == CR and index == len(raw) and CRLF in eols:
+            skiplf = True  # CR at end of raw so matching LF may not have arrived yet
         del raw[:index] # remove used bytes
         (yield line)
     return
